@@ -21,6 +21,8 @@ static Json::Value genC02(Rng& rng) {
     delays.append((Json::Int64)d);
   }
   plan["delays"] = delays;
+  if (rng.chance(0.35))
+    addPluginCosts(rng, plan);
   plan["clock_off"] = (Json::Int64)rng.range(0, 999999999);
   return plan;
 }
